@@ -91,6 +91,21 @@ def judge_config(path, depth, seeds):
         return f'factory_env_from_data raised {type(e).__name__}: {e}'
     if data != before:
         return 'building modified the input data tree'
+    # the per-component factories must not modify the specs handed to them either
+    from gym_gridverse.envs.yaml import factory as FY
+
+    for key, fac in (('reset_function', FY.factory_reset_function), ('observation_function', FY.factory_observation_function),
+                     ('terminating_function', FY.factory_terminating_function)):
+        spec = copy.deepcopy(before[key])
+        fac(spec)
+        if spec != before[key]:
+            return f'factory_{key} modified the specification handed to it'
+    for key, fac in (('transition_functions', FY.factory_transition_function), ('reward_functions', FY.factory_reward_function)):
+        for sp in before[key]:
+            spec = copy.deepcopy(sp)
+            fac(spec)
+            if spec != sp:
+                return f'factory for {key} modified the specification handed to it'
     try:
         built2 = factory_env_from_yaml(path)
     except Exception as e:  # noqa: BLE001
